@@ -261,50 +261,164 @@ func gridScalarRules(x *idxCtx, a float64) {
 			x.bad("scalar.Same", "grid", "wrong-answer", rp, "a=%v b=%v", a, b)
 		}
 	}
-	// Round / RoundEven at extreme precisions (10^prec overflows / underflows)
-	for _, prec := range []int{-400, -330, -20, -1, 0, 1, 15, 17, 22, 23, 300, 308, 330, 400} {
-		for _, even := range []bool{false, true} {
-			name, f := "scalar.Round", scalar.Round
-			if even {
-				name, f = "scalar.RoundEven", scalar.RoundEven
+	gridRound(x, a)
+}
+
+// roundXs: non-integers and integers on both sides of every guard of
+// Round/RoundEven (x·10^prec overflowing while 10^prec is finite, 10^prec
+// subnormal or zero, x·10^prec beyond 2^53 where rounding stops changing x).
+var roundXs = []float64{
+	2.5, -2.5, 1.5, 0.5, 0.1, 1.0 / 3, 4.35, 2.675, 1e10 + 0.5, -(1e10 + 0.5), 1e15 + 0.5, 1.5e300, -1.5e300, 123.456e200,
+	123456789.123456789, 9.87654321e-5, 0.30000000000000004, 8.41e21 + 1e6, math.MaxFloat64, -math.MaxFloat64, 0x1.8p-1022, 1e-310, 7.5e-320, 2.5e-300,
+}
+
+// gridRound judges Round/RoundEven against the exact decimal rounding of the
+// exact binary value (big.Rat), rounded to the nearest float64.
+//
+// Documented deviations of the unchanged implementation (it computes
+// math.Round(x*pow)/pow in float64): pow = 10^prec is inexact for |prec| > 22
+// (result within 2 ulp instead of 1), and subnormal for prec < -307 (relative
+// error up to 2^-1074/pow); where the float product x*pow is inexact and the
+// exact value lies within 1e-9 of a half-integer either neighbour is
+// admissible. Never admissible: Inf, NaN or 0 where the exact answer is a
+// finite non-zero float64.
+func gridRound(x *idxCtx, a float64) {
+	xs := []float64{a}
+	for i, v := range roundXs {
+		if i%len(hostile) == indexOfHostile(a) || len(hostile) == 0 {
+			xs = append(xs, v)
+		}
+	}
+	// every part also takes two of the directed values so that all are used
+	k := indexOfHostile(a)
+	xs = append(xs, roundXs[(2*k)%len(roundXs)], roundXs[(2*k+1)%len(roundXs)], roundXs[(k+7)%len(roundXs)])
+	for _, v := range xs {
+		precs := map[int]bool{}
+		for p := -400; p <= 400; p += 50 {
+			precs[p] = true
+		}
+		for _, p := range []int{-2, -1, 0, 1, 2, 21, 22, 23, 24} {
+			precs[p] = true
+		}
+		around := func(c int) {
+			for d := -3; d <= 3; d++ {
+				precs[c+d] = true
 			}
-			got := f(a, prec)
-			x.t.eval(name+"|grid|"+gcls(a), true)
-			rp := map[string]any{"x": a, "prec": prec}
-			switch {
-			case a != a:
-				if got == got {
-					x.bad(name, "NaN", "special-case", rp, "got %v", got)
+		}
+		around(-323)
+		around(-308)
+		around(308)
+		if finiteF(v) && v != 0 {
+			lg := int(math.Floor(math.Log10(math.Abs(v))))
+			around(308 - lg)
+			around(15 - lg)
+			around(-lg)
+		}
+		for prec := range precs {
+			for _, even := range []bool{false, true} {
+				name, f := "scalar.Round", scalar.Round
+				if even {
+					name, f = "scalar.RoundEven", scalar.RoundEven
 				}
-			case math.IsInf(a, 0):
-				if got != a {
-					x.bad(name, "Inf", "special-case", rp, "got %v", got)
-				}
-			case a == 0:
-				if got != 0 || math.Signbit(got) {
-					x.bad(name, "zero", "special-case", rp, "got %s", fmtf(got))
-				}
-			default:
-				want, nearHalf := refRound(a, prec, even)
-				if got == want || vrt.ULPDiff(got, want) <= 1 {
+				got := f(v, prec)
+				x.t.eval(name+"|grid|"+gcls(v), true)
+				rp := map[string]any{"x": v, "prec": prec}
+				switch {
+				case v != v:
+					if got == got {
+						x.bad(name, "NaN", "special-case", rp, "got %v", got)
+					}
+					continue
+				case math.IsInf(v, 0):
+					if got != v {
+						x.bad(name, "Inf", "special-case", rp, "got %v", got)
+					}
+					continue
+				case v == 0:
+					if got != 0 || math.Signbit(got) {
+						x.bad(name, "zero", "special-case", rp, "got %s", fmtf(got))
+					}
 					continue
 				}
-				// x·10^prec outside the float64 range: the documented behaviour is
-				// "return x" on overflow; on underflow the product is 0 or subnormal
-				// and the quotient cannot be formed accurately
-				fi := a * math.Pow10(prec)
-				if math.IsInf(fi, 0) || math.Pow10(prec) == 0 || math.IsInf(math.Pow10(prec), 0) || math.Abs(fi) < 0x1p-1022 {
-					if got == a || got == 0 {
+				want, nearHalf := refRound(v, prec, even)
+				if got == want {
+					continue
+				}
+				pow := math.Pow10(prec)
+				regime := "pow-exact"
+				switch {
+				case math.IsInf(v*pow, 0) && !math.IsInf(pow, 0):
+					regime = "x*pow-overflows"
+				case math.IsInf(pow, 0):
+					regime = "pow-overflows"
+				case pow == 0:
+					regime = "pow-underflows"
+				case pow < 0x1p-1022:
+					regime = "pow-subnormal"
+				case prec > 22 || prec < -22:
+					regime = "pow-inexact"
+				}
+				if !finiteF(got) || (got == 0 && want != 0) {
+					if !(math.IsInf(want, 0) && got == want) {
+						x.bad(name, regime, "non-finite-or-zero-for-finite-answer", rp, "%s(%v, %d) = %v, exact decimal rounding gives %v", name, v, prec, got, want)
 						continue
 					}
 				}
-				if nearHalf {
+				if regime == "pow-overflows" && got == v {
+					// prec > 308: 10^prec is not a float64 and the implementation
+					// returns x unchanged; exact for every x >= 2^-1022·2^52 or so,
+					// a limitation (not Inf/NaN/0) for tiny x that still has digits
+					// beyond prec
 					continue
 				}
-				x.bad(name, "grid|extreme-precision", "not-the-rounded-value", rp, "%s(%v,%d) = %v, exact %v", name, a, prec, got, want)
+				ulps := int64(1)
+				switch regime {
+				case "pow-inexact":
+					ulps = 2
+				case "pow-subnormal":
+					ulps = 1 << 62
+					if rel := 0x1p-1074 / pow * 4; math.Abs(got-want) <= rel*math.Abs(want)+0x1p-1074 {
+						continue
+					}
+				}
+				if vrt.ULPDiff(got, want) <= ulps {
+					continue
+				}
+				if nearHalf {
+					step := math.Pow10(-prec)
+					if math.Abs(math.Abs(got-want)-step) <= 8*vrt.Eps64*(math.Abs(want)+step) {
+						continue
+					}
+				}
+				x.bad(name, regime, "not-the-rounded-value", rp, "%s(%v, %d) = %v, exact decimal rounding gives %v", name, v, prec, got, want)
+			}
+			// cscalar delegates component-wise
+			z := complex(v, -v)
+			for _, even := range []bool{false, true} {
+				name, f, fr := "cscalar.Round", cscalar.Round, scalar.Round
+				if even {
+					name, f, fr = "cscalar.RoundEven", cscalar.RoundEven, scalar.RoundEven
+				}
+				w := complex(fr(v, prec), fr(-v, prec))
+				if z == 0 {
+					w = 0
+				}
+				if g := f(z, prec); !same(g, w) {
+					x.bad(name, "grid", "not-componentwise-Round", map[string]any{"x": v, "prec": prec}, "%v -> %v want %v", z, g, w)
+				}
+				x.t.eval(name+"|grid", true)
 			}
 		}
 	}
+}
+
+func indexOfHostile(a float64) int {
+	for i, h := range hostile {
+		if math.Float64bits(h) == math.Float64bits(a) {
+			return i
+		}
+	}
+	return 0
 }
 
 // ---- scalar multipliers / addends of the slice API --------------------------------
